@@ -43,6 +43,7 @@ type Ctx struct {
 	mods      *modAnalysis
 	mutableGlobals map[string]bool
 	initNonNil     map[string]bool
+	ghostDefaults  []string
 	loadErrs  []string
 }
 
@@ -123,6 +124,12 @@ func LoadCtx(repo, verif string, overlay map[string][]byte) (*Ctx, error) {
 			return c, err
 		}
 	}
+	for name, gv := range c.contracts.GVars {
+		if gv.Default != nil {
+			c.ghostDefaults = append(c.ghostDefaults, name)
+		}
+	}
+	sort.Strings(c.ghostDefaults)
 	// package-level variables with an initialiser that is a call, composite literal, &literal or make()
 	c.initNonNil = map[string]bool{}
 	for _, p := range pkgs {
